@@ -22,18 +22,6 @@ impl UrlPath {
     #[verifier::external_body]
     pub fn ends_with(&self, c: char) -> (r: bool) { unimplemented!() }
 }
-pub uninterp spec fn uuid_text(u: Uuid) -> Seq<char>;
-pub uninterp spec fn uuid_parse(s: Seq<char>) -> Option<Uuid>;
-pub struct UuidParseError { pub e: u8 }
-impl Uuid {
-    /// hyphenated lower-case rendering (Display)
-    #[verifier::external_body]
-    pub fn to_string(&self) -> (r: String) ensures r@ == uuid_text(*self) { unimplemented!() }
-    #[verifier::external_body]
-    pub fn parse_str(s: &str) -> (r: core::result::Result<Uuid, UuidParseError>)
-        ensures match r { Ok(u) => uuid_parse(s@) == Some(u), Err(_) => uuid_parse(s@) is None }
-    { unimplemented!() }
-}
 pub mod reqwest {
     use vstd::prelude::*;
     use super::{Url, Uuid};
